@@ -490,6 +490,11 @@ func rUnsupportedKinds(c *Ctx, plugins ...string) {
 					continue // the default arm of a call-free predicate (nullable, isOrdered) answers false, it does not accept anything
 				}
 				if strings.HasPrefix(d.Sym, "K:") && d.Choice == d.N-1 && strings.Contains(d.Sym, "Underlying()") {
+					// the switch is over the structure of a value's own type (<type>.Underlying()), not over something a
+					// predicate computed from it (the parameter type of a method found on it, ...)
+					if parts := strings.SplitN(d.Sym, ":", 3); len(parts) == 3 && !strings.HasSuffix(parts[1], ".Underlying()") {
+						continue
+					}
 					other = d.Sym
 				}
 			}
